@@ -6,7 +6,10 @@
 * Exp / Log of all four types: enclosure route on the modelled Jl / Jl_inv / calcQ / truncated sim3 series;
 * search oracle, independent of the model: central finite differences of the LEFT-PERTURBED real
   forward program (Exp(h e_j) @ X for group inputs), for single Functions and for random well-typed
-  expression trees; NaN/Inf scan at the identity and the zero vector."""
+  expression trees; NaN/Inf scan at the identity and the zero vector;
+* multi_node: the same oracle for graphs in which several nodes of one Function (or of a sibling Function) with different
+  operands are alive at once, for forward calls made between a forward and its backward, for batched / broadcast /
+  non-contiguous operands mixing special and generic items, and for float32."""
 import math
 from ..common import *
 from ..lie import *
@@ -14,7 +17,9 @@ from .c01 import K_EPS, K_SQRT, direction
 
 RULE = ('per Function: (group, op, operands, cotangent) -> input cotangents; exact route on dyadic data for polynomial ops, enclosure for Exp/Log; '
         'non-trivial = operands not identity/zero; distinct by value; composite programs: random well-typed trees over '
-        '{Exp, Log, Inv, @, Act, Act4, Adj, AdjT, Retr, matrix} of depth <= 6 checked against left-perturbation finite differences')
+        '{Exp, Log, Inv, @, Act, Act4, Adj, AdjT, Retr, matrix} of depth <= 6 over two group and two algebra leaves checked against left-perturbation finite differences; '
+        'per (group, Function): several nodes alive at once (sum / interleaved forward and backward calls / nested / shared operand), batches mixing identity, tiny and '
+        'generic items in several memory layouts, broadcast operand, float32 - against finite differences of the single-element program')
 
 OPC = {'Mul': 0, 'Inv': 1, 'Act': 2, 'Act4': 3, 'Adj': 4, 'AdjT': 5}
 
@@ -328,6 +333,320 @@ def fd_single(pp, torch, rng, g, op, point):
 
 
 # ------------------------------------------------------------------------------------------------
+# several nodes of the same (or a sibling) Function alive at once, state between forward and backward, batches mixing
+# special and generic elements, broadcast / non-contiguous operands.  Oracle: left-perturbation finite differences of the
+# real forward program (fd_grads), nothing else.
+ALL_OPS = ('Mul', 'Inv', 'Act', 'Act4', 'Adj', 'AdjT', 'Exp', 'Log', 'Retr', 'matrix', 'Jinvp')
+ARITY = {'Mul': 2, 'Inv': 1, 'Act': 2, 'Act4': 2, 'Adj': 2, 'AdjT': 2, 'Exp': 1, 'Log': 1, 'Retr': 2, 'matrix': 1, 'Jinvp': 2}
+VEC2 = ('Act', 'Act4', 'Adj', 'AdjT', 'Jinvp')          # (group, vector) -> vector of the same kind: chainable in the 2nd operand
+NCOT = 16
+
+
+def enc(pp, x):
+    if isinstance(x, pp.LieTensor):
+        return dict(k='A' if x.ltype.on_manifold else 'G', v=x.tensor().detach().tolist())
+    return dict(k='P', v=x.detach().tolist())
+
+
+def dec(pp, torch, g, e):
+    if e['k'] == 'G':
+        return grp(pp, torch, g, e['v'], rg=False)
+    if e['k'] == 'A':
+        return alg(pp, torch, g, e['v'], rg=False)
+    return torch.tensor(e['v'], dtype=torch.float64)
+
+
+def rd(pp, out):
+    """Euclidean read-out of a node: group-valued results through matrix() (the cotangent of a group-valued tensor is
+    in tangent coordinates by the library's convention, so raw quaternion coordinates are never differentiated)"""
+    if isinstance(out, pp.LieTensor):
+        return (out.tensor() if out.ltype.on_manifold else out.matrix()).reshape(-1)
+    return out.reshape(-1)
+
+
+def multi_program(pp, torch, g, scen, ops, cots):
+    f1, f2 = single_op_fn(pp, ops[0]), single_op_fn(pp, ops[-1])
+    n1 = ARITY[ops[0]]
+    c = [torch.tensor(v, dtype=torch.float64) for v in cots]
+
+    def dot(i, out):
+        r = rd(pp, out)
+        return (c[i][:r.numel()] * r).sum().reshape(1)
+    op = ops[0]
+    if scen == 'sum':
+        return lambda *z: dot(0, f1(*z[:n1])) + dot(1, f2(*z[n1:]))
+    if scen == 'shared2':        # z = X1, X2, s
+        return lambda X1, X2, s: dot(0, f1(X1, s)) + dot(1, f1(X2, s))
+    if scen == 'shared1':        # z = X, s1, s2
+        return lambda X, s1, s2: dot(0, f1(X, s1)) + dot(1, f1(X, s2))
+    assert scen == 'nested'
+    if op in VEC2:
+        return lambda X1, X2, s: dot(0, f1(X1, f2(X2, s)))
+    if op == 'Mul':
+        return lambda X1, X2, X3: dot(0, f1(f1(X1, X2), X3)) + dot(1, f1(X1, f1(X2, X3)))
+    if op == 'Inv':
+        return lambda X1, X2: dot(0, f1(f1(X1) @ X2))
+    if op == 'Exp':
+        return lambda a1, a2: dot(0, f1(a1) @ f1(a2))
+    if op == 'Retr':
+        return lambda X, a1, a2: dot(0, f1(f1(X, a1), a2))
+    if op == 'Log':
+        return lambda X1, X2: dot(0, f1(f1(X1).Exp() @ X2))
+    return lambda X1, X2: dot(0, f1(X1) @ f1(X2))          # matrix
+
+
+def multi_inputs(pp, torch, rng, g, scen, ops, points):
+    i1 = generic_inputs(pp, torch, rng, g, ops[0], points[0])
+    i2 = generic_inputs(pp, torch, rng, g, ops[-1], points[1])
+    op = ops[0]
+    if scen == 'sum':
+        return i1 + i2
+    if scen == 'shared2':
+        return [i1[0], i2[0], i1[1]]
+    if scen == 'shared1':
+        return [i1[0], i1[1], i2[1]]
+    if op in VEC2:
+        return [i1[0], i2[0], i2[1]]
+    if op == 'Mul':
+        return [i1[0], i1[1], i2[0]]
+    if op == 'Retr':
+        return [i1[0], i1[1], i2[1]]
+    return [i1[0], i2[0]]
+
+
+def series_tol(pp, g, ops, ins, base=2e-5, nodes=2):
+    """documented truncation of the sim3 series: error <= const * |ad xi|^6"""
+    if g != 'Sim3' or not any(o in SERIES_OPS for o in ops):
+        return base
+    xi = 0.0
+    for x in ins:
+        if isinstance(x, pp.LieTensor):
+            v = x.tensor() if x.ltype.on_manifold else x.Log().tensor()
+            xi = max(xi, float(v.reshape(-1, v.shape[-1]).norm(dim=-1).max()))
+    return base + 4.0 * nodes * xi ** 6
+
+
+def near_pi(pp, torch, xs, margin=0.1):
+    """some group element (or product of two) has a rotation angle within margin of pi: Log is not differentiable there"""
+    Gs = [x for x in xs if isinstance(x, pp.LieTensor) and not x.ltype.on_manifold]
+    Gs = Gs + [a @ b for a in Gs for b in Gs if a is not b and a.shape == b.shape]
+    for X in Gs:
+        t = X.tensor().reshape(-1, X.shape[-1])
+        q = t[:, 3:7] if t.shape[-1] >= 7 else t[:, 0:4]
+        ang = 2 * torch.atan2(q[:, :3].norm(dim=-1), q[:, 3].abs())
+        if float(ang.max()) > math.pi - margin:
+            return True
+    return False
+
+
+def diff_grads(ig, fg, tol, names=None):
+    for k, (a, b) in enumerate(zip(ig, fg)):
+        if any(not math.isfinite(v) for v in a):
+            return '%s: gradient contains NaN/Inf: %s' % (names[k] if names else 'input %d' % k, a)
+        scale = max(1.0, max(abs(v) for v in b + a))
+        for j, (u, v) in enumerate(zip(a, b)):
+            if abs(u - v) > tol * scale:
+                return '%s slot %d: autograd %.9g vs left-perturbation finite difference %.9g (all: %s vs %s)' % (
+                    names[k] if names else 'input %d' % k, j, u, v, [round(z, 6) for z in a], [round(z, 6) for z in b])
+    return None
+
+
+def leaves(xs):
+    return [x.detach().clone().requires_grad_() for x in xs]
+
+
+def padded(pp, torch, out, cot):
+    t = out.tensor() if isinstance(out, pp.LieTensor) else out
+    rows = cot.shape[0] if cot.dim() == 2 else 1          # per item: the first slots of the flattened result
+    full = torch.zeros(rows, t.numel() // rows, dtype=t.dtype)
+    full[:, :cot.shape[-1]] = cot.reshape(rows, -1)
+    return t, full.reshape(t.shape)
+
+
+def glist(gs, xs):
+    return [[float(v) for v in (g_.reshape(-1).tolist() if g_ is not None else [0.0] * x.numel())] for g_, x in zip(gs, xs)]
+
+
+def multi_eval(pp, torch, c):
+    """evaluates one recorded multi-node case; returns a description of the failure or None"""
+    g, scen, ops = c['g'], c['scen'], c['ops']
+    ins = [dec(pp, torch, g, e) for e in c['ins']]
+    tol = series_tol(pp, g, ops, ins, c.get('tol', 2e-5))
+    one = torch.ones(1, dtype=torch.float64)
+    if scen in ('sum', 'shared1', 'shared2', 'nested'):
+        if ('Log' in ops or 'Jinvp' in ops) and near_pi(pp, torch, ins):
+            return None
+        return compare_fd(pp, torch, multi_program(pp, torch, g, scen, ops, c['cots']), ins, one, tol=tol)
+    cots = [torch.tensor(v, dtype=torch.float64) for v in c['cots']]
+    f1, f2 = single_op_fn(pp, ops[0]), single_op_fn(pp, ops[-1])
+    n1 = ARITY[ops[0]]
+    if scen == 'interleaved':
+        # forward of node 1, forward of node 2 (both graphs alive), more forward calls of the same Functions with other
+        # operands (with and without grad mode), then the backward of node 1 (twice), then of node 2
+        i1, i2, i3 = ins[:n1], ins[n1:n1 + ARITY[ops[-1]]], ins[n1 + ARITY[ops[-1]]:]
+        if ('Log' in ops or 'Jinvp' in ops) and near_pi(pp, torch, ins):
+            return None
+        try:
+            a, b = leaves(i1), leaves(i2)
+            o1 = f1(*a)
+            o2 = f2(*b)
+            with torch.no_grad():
+                f1(*i3)
+            t1, c1 = padded(pp, torch, o1, cots[0])
+            g1 = glist(torch.autograd.grad(t1, a, c1, retain_graph=True, allow_unused=True), a)
+            f1(*leaves(i3))
+            g1b = glist(torch.autograd.grad(t1, a, c1, allow_unused=True), a)
+            t2, c2 = padded(pp, torch, o2, cots[1])
+            g2 = glist(torch.autograd.grad(t2, b, c2, allow_unused=True), b)
+        except Exception as e:
+            return 'autograd raised %r' % (e,)
+        if g1 != g1b:
+            return 'the backward of the same node gives %s the first time and %s after another forward call of %s' % (g1, g1b, ops[0])
+        why = diff_grads(g1, fd_grads(pp, torch, f1, i1, cots[0]), tol, ['node 1 (%s, backward after a later forward of %s) input %d' % (ops[0], ops[-1], k) for k in range(len(i1))])
+        return why or diff_grads(g2, fd_grads(pp, torch, f2, i2, cots[1]), tol, ['node 2 (%s) input %d' % (ops[-1], k) for k in range(len(i2))])
+    if scen == 'float32':
+        # the same call in float32: finite, and within sqrt(eps)-level of the float64 finite differences
+        if ops[0] in ('Log', 'Jinvp') and near_pi(pp, torch, ins, 0.3):
+            return None
+        try:
+            a = [(pp.LieTensor(x.tensor().float(), ltype=x.ltype) if isinstance(x, pp.LieTensor) else x.float()).requires_grad_() for x in ins]
+            t, full = padded(pp, torch, f1(*a), cots[0].float())
+            gs = torch.autograd.grad(t, a, full, allow_unused=True)
+        except Exception as e:
+            return 'autograd raised %r in float32' % (e,)
+        if any(g_ is not None and g_.dtype != torch.float32 for g_ in gs):
+            return 'float32 inputs give gradients of dtype %s' % [g_.dtype for g_ in gs if g_ is not None]
+        return diff_grads(glist(gs, a), fd_grads(pp, torch, f1, ins, cots[0]), max(tol, 2e-3), ['float32 input %d' % k for k in range(len(a))])
+    assert scen in ('batched', 'broadcast')
+    # one call on a batch mixing special and generic elements (operands in the recorded memory layout), judged item by
+    # item against the finite differences of the single-element program; 'broadcast': the first operand is a single
+    # element used by every item, its gradient is the sum over the items
+    lay = c.get('layout', 'contiguous')
+    B = len(c['ins'][-1]['v'])
+
+    def relayout(x):
+        t = x.tensor() if isinstance(x, pp.LieTensor) else x
+        if t.dim() == 1:
+            return x.detach().clone()
+        if lay == 'transposed':
+            t2 = t.t().contiguous().t()
+        elif lay == 'strided':
+            big = torch.zeros(2 * t.shape[0], t.shape[1] + 1, dtype=t.dtype)
+            big[::2, :-1] = t
+            t2 = big[::2, :-1]
+        else:
+            t2 = t.clone()
+        return pp.LieTensor(t2, ltype=x.ltype) if isinstance(x, pp.LieTensor) else t2
+    item = lambda x, b: x if (x.tensor() if isinstance(x, pp.LieTensor) else x).dim() == 1 else x[b]
+    items = [[item(x, b) for x in ins] for b in range(B)]
+    if ops[0] in ('Log', 'Jinvp') and any(near_pi(pp, torch, it) for it in items):
+        return None
+    try:
+        a = [relayout(x).requires_grad_() for x in ins]
+        call = list(a)
+        if scen == 'broadcast' and lay == 'expanded':
+            call[0] = a[0].expand(B, a[0].shape[-1]) if not isinstance(a[0], pp.LieTensor) else pp.LieTensor(a[0].tensor().expand(B, a[0].shape[-1]), ltype=a[0].ltype)
+        o = f1(*call)
+        t, full = padded(pp, torch, o, cots[0])
+        gs = torch.autograd.grad(t, a, full, allow_unused=True)
+    except Exception as e:
+        return 'autograd raised %r' % (e,)
+    exp_first = None
+    for b in range(B):
+        fg = fd_grads(pp, torch, f1, items[b], cots[0][b])
+        got = []
+        for k, (g_, x) in enumerate(zip(gs, a)):
+            if g_ is None:
+                got.append([0.0] * len(fg[k]))
+            elif g_.dim() == 1:
+                got.append(None)
+            else:
+                got.append([float(v) for v in g_[b].tolist()])
+        if got[0] is None:
+            exp_first = fg[0] if exp_first is None else [u + v for u, v in zip(exp_first, fg[0])]
+        ks = [k for k in range(len(got)) if got[k] is not None]
+        why = diff_grads([got[k] for k in ks], [fg[k] for k in ks], tol, ['batch item %d input %d' % (b, k) for k in ks])
+        if why:
+            return why
+    if exp_first is not None:
+        return diff_grads([[float(v) for v in gs[0].tolist()]], [exp_first], tol, ['shared (broadcast) input 0, sum over the batch'])
+    return None
+
+
+def multi_node(ctx, pp, torch):
+    rng = ctx.rng
+    known_ops = {tuple(k.split(':')[1:3]) for k in ctx.known if k.startswith('grad-wrong:')}
+    SIB = {'Adj': 'AdjT', 'AdjT': 'Adj', 'Act': 'Act4', 'Act4': 'Act', 'Exp': 'Retr', 'Retr': 'Exp', 'Mul': 'Inv', 'Inv': 'Mul',
+           'Log': 'Jinvp', 'Jinvp': 'Log', 'matrix': 'Act'}
+    rounds = ctx.scale(1, 6)
+    for rnd in range(rounds):
+        for g in GROUPS:
+            for op in ALL_OPS:
+                if (g, op) in known_ops:
+                    continue
+                scens = ['sum', 'interleaved', 'nested', 'batched']
+                if ARITY[op] == 2:
+                    scens += ['shared2', 'shared1', 'broadcast']
+                # quick tier: 'interleaved' and 'sum' always (same Function twice), two of the others in rotation
+                rest = [s for s in scens if s not in ('sum', 'interleaved')]
+                rng.shuffle(rest)
+                todo = [('sum', op), ('interleaved', op), ('sum' if rng.random() < 0.5 else 'interleaved', SIB[op]), ('batched', op), ('float32', op)] + [
+                    (s, op) for s in [s for s in rest if s != 'batched'][:2 if ctx.thorough else 1]]
+                for scen, op2 in todo:
+                    if (g, op2) in known_ops:
+                        continue
+                    ops = [op, op2] if scen in ('sum', 'interleaved') else [op]
+                    pts = ['generic', rng.choice(['generic', 'generic', 'identity', 'tiny'])]
+                    rng.shuffle(pts)
+                    if 'Jinvp' in ops:
+                        pts = ['generic' if p == 'identity' else p for p in pts]
+                    c = dict(kind='multi', g=g, scen=scen, ops=ops, points=pts)
+                    if scen in ('batched', 'broadcast'):
+                        B = 4
+                        bp = ['identity', 'tiny', 'generic', 'generic']
+                        rng.shuffle(bp)
+                        if op == 'Jinvp':
+                            bp = ['generic' if p == 'identity' else p for p in bp]
+                        its = [generic_inputs(pp, torch, rng, g, op, p) for p in bp]
+                        st = []
+                        for k in range(ARITY[op]):
+                            if scen == 'broadcast' and k == 0:
+                                st.append(its[-1][0])
+                                continue
+                            col = torch.stack([(it[k].tensor() if isinstance(it[k], pp.LieTensor) else it[k]) for it in its])
+                            st.append(pp.LieTensor(col, ltype=its[0][k].ltype) if isinstance(its[0][k], pp.LieTensor) else col)
+                        c.update(points=bp, ins=[enc(pp, x) for x in st], layout=rng.choice(['contiguous', 'transposed', 'strided'] + (['expanded'] if scen == 'broadcast' else [])),
+                                 cots=[[[rng.uniform(-1, 1) for _ in range(out_cot_dim(g, op))] for _ in range(B)]])
+                    elif scen == 'float32':
+                        pt = rng.choice(['generic', 'generic', 'identity'] if op != 'Jinvp' else ['generic'])
+                        xs = generic_inputs(pp, torch, rng, g, op, pt)
+                        c.update(points=[pt], ins=[enc(pp, x) for x in xs], cots=[[rng.uniform(-1, 1) for _ in range(out_cot_dim(g, op))]])
+                    elif scen == 'interleaved':
+                        xs = generic_inputs(pp, torch, rng, g, op, pts[0]) + generic_inputs(pp, torch, rng, g, op2, pts[1]) + generic_inputs(pp, torch, rng, g, op, 'generic')
+                        c.update(ins=[enc(pp, x) for x in xs], cots=[[rng.uniform(-1, 1) for _ in range(out_cot_dim(g, o))] for o in ops])
+                    else:
+                        xs = multi_inputs(pp, torch, rng, g, scen, ops, pts)
+                        c.update(ins=[enc(pp, x) for x in xs], cots=[[rng.uniform(-1, 1) for _ in range(NCOT)] for _ in range(2)])
+                    ctx.case(('multi', g, scen, tuple(ops), rnd, rng.random()), branch='multi-%s-%s' % (scen, g))
+                    try:
+                        why = multi_eval(pp, torch, c)
+                    except Exception as e:
+                        why = 'the scenario could not be evaluated: %r' % (e,)
+                    if why:
+                        ctx.violation('grad-wrong:%s:%s' % (g, op), '%s %s, scenario %s (%s; points %s): %s' % (
+                            g, '+'.join(ops), scen, SCEN_TEXT[scen], c['points'], why), c)
+
+
+SCEN_TEXT = {'sum': 'two nodes with different operands in one graph, one backward call',
+             'interleaved': 'two graphs alive, further forward calls before the backward calls',
+             'nested': 'the Function applied to its own result',
+             'shared1': 'one group element used by two nodes', 'shared2': 'one second operand used by two nodes',
+             'batched': 'one batched call mixing identity / tiny / generic items, judged item by item',
+             'broadcast': 'single first operand against a batch of second operands',
+             'float32': 'the call in float32 against float64 finite differences, tolerance 2e-3'}
+
+
+# ------------------------------------------------------------------------------------------------
 def run(ctx):
     pp = import_pypose()
     import torch
@@ -501,6 +820,9 @@ def run(ctx):
                 break
     # ---------------------------------------------------------------- composite programs and finiteness scan (implementation level)
     composite(ctx, pp, torch)
+    # ---------------------------------------------------------------- several nodes of one Function alive at once, forward
+    # calls between forward and backward, batches mixing special and generic items, broadcast / non-contiguous operands
+    multi_node(ctx, pp, torch)
 
 
 def shard(items, n):
@@ -516,6 +838,36 @@ KNOWN_WITNESS = {
 }
 
 
+def tree_prog(pp, torch, ops, final, pick):
+    def prog(X, a, p, Y, b, ops=tuple(ops), final=final, pick=tuple(pick)):
+        Z = X
+        for o, w in zip(ops, pick):
+            W = (X, Y, Z)[w % 3]             # group operand of this node
+            c = (a, b)[w // 3]               # algebra operand of this node
+            if o == 'Mul':
+                Z = Z @ (X, Y)[w % 2]
+            elif o == 'Inv':
+                Z = Z.Inv()
+            elif o == 'ExpLog':
+                Z = Z.Log().Exp()
+            elif o == 'Retr':
+                Z = Z.Retr(c)
+            elif o == 'MulExp':
+                Z = c.Exp() @ Z
+            elif o == 'AdjRetr':
+                Z = Z.Retr(W.Adj(c))
+            else:
+                Z = Z.Retr(W.AdjT(c))
+        if final == 'Act':
+            return Z.Act(p)
+        if final == 'Act4':
+            return Z.Act(torch.cat([p, torch.ones(1, dtype=p.dtype)]))
+        if final == 'Log':
+            return Z.Log()
+        return Z.matrix().reshape(-1)
+    return prog
+
+
 def composite(ctx, pp, torch):
     """random well-typed trees; autograd vs left-perturbation finite differences.  A disagreement in a
     tree whose every Function family agrees with the (proved) model would be an autograd-plumbing
@@ -529,6 +881,10 @@ def composite(ctx, pp, torch):
         X0 = generic_inputs(pp, torch, rng, g, 'Inv', point)[0]
         a0 = generic_inputs(pp, torch, rng, g, 'Exp', point)[0]
         p0 = torch.tensor([rng.uniform(-2, 2) for _ in range(3)], dtype=torch.float64)
+        # second group / algebra leaf (always generic): nodes of one Function see different operands within one tree
+        Y0 = generic_inputs(pp, torch, rng, g, 'Inv', 'generic')[0]
+        b0 = generic_inputs(pp, torch, rng, g, 'Exp', 'generic')[0]
+        pick = [rng.randrange(6) for _ in range(depth)]
         ops = []
         for _ in range(depth):
             ops.append(rng.choice(['Mul', 'Inv', 'ExpLog', 'Retr', 'MulExp', 'AdjRetr', 'AdjTRetr']))
@@ -541,45 +897,23 @@ def composite(ctx, pp, torch):
         if used & known_ops:
             continue
 
-        def prog(X, a, p, ops=tuple(ops), final=final):
-            Z = X
-            for o in ops:
-                if o == 'Mul':
-                    Z = Z @ X
-                elif o == 'Inv':
-                    Z = Z.Inv()
-                elif o == 'ExpLog':
-                    Z = Z.Log().Exp()
-                elif o == 'Retr':
-                    Z = Z.Retr(a)
-                elif o == 'MulExp':
-                    Z = a.Exp() @ Z
-                elif o == 'AdjRetr':
-                    Z = Z.Retr(X.Adj(a))
-                else:
-                    Z = Z.Retr(X.AdjT(a))
-            if final == 'Act':
-                return Z.Act(p)
-            if final == 'Act4':
-                return Z.Act(torch.cat([p, torch.ones(1, dtype=p.dtype)]))
-            if final == 'Log':
-                return Z.Log()
-            return Z.matrix().reshape(-1)
+        prog = tree_prog(pp, torch, ops, final, pick)
         n_out = {'Act': 3, 'Act4': 4, 'Log': ADIM[g], 'matrix': 9 if g == 'SO3' else 16}[final]
         cot = torch.tensor([rng.uniform(-1, 1) for _ in range(n_out)], dtype=torch.float64)
         ctx.case(('tree', g, tuple(ops), final, point, t), branch='tree-depth%d' % depth)
-        why = compare_fd(pp, torch, prog, [X0, a0, p0], cot, tol=5e-5)
+        why = compare_fd(pp, torch, prog, [X0, a0, p0, Y0, b0], cot, tol=5e-5)
         if why:
             # rotation angle of an intermediate may sit near pi, where Log is not differentiable: retry decides
             big = False
             try:
                 Z = X0
-                big = float(prog(X0, a0, p0).abs().max()) > 1e6
+                big = float(prog(X0, a0, p0, Y0, b0).abs().max()) > 1e6
             except Exception:
                 pass
             if 'NaN' in why or not big:
                 ctx.violation('grad-wrong:tree:%s' % g, 'composite program %s -> %s on %s at a %s point: %s' % (ops, final, g, point, why),
-                              dict(kind='tree', g=g, ops=ops, final=final, point=point, X=X0.tensor().tolist(), a=a0.tensor().tolist(), p=p0.tolist(), cot=cot.tolist()))
+                              dict(kind='tree', g=g, ops=ops, final=final, point=point, pick=pick, X=X0.tensor().tolist(), a=a0.tensor().tolist(), p=p0.tolist(),
+                                   Y=Y0.tensor().tolist(), b=b0.tensor().tolist(), cot=cot.tolist()))
 
 
 def replay(ctx, c):
@@ -595,8 +929,15 @@ def replay(ctx, c):
             t = torch.tensor(v, dtype=torch.float64)
             new.append(pp.LieTensor(t, ltype=x.ltype) if isinstance(x, pp.LieTensor) else t)
         return compare_fd(pp, torch, single_op_fn(pp, op), new, torch.tensor(c['cot'], dtype=torch.float64))
+    if c.get('kind') == 'multi':
+        return multi_eval(pp, torch, c)
     if c.get('kind') == 'tree':
-        return 're-run the check: tree replays are regenerated from the seed'
+        if 'pick' not in c:
+            return 're-run the check: tree replays are regenerated from the seed'
+        T = lambda v: torch.tensor(v, dtype=torch.float64)
+        G, A = getattr(pp, c['g'] + '_type'), alg_type(pp, c['g'])
+        ins = [pp.LieTensor(T(c['X']), ltype=G), pp.LieTensor(T(c['a']), ltype=A), T(c['p']), pp.LieTensor(T(c['Y']), ltype=G), pp.LieTensor(T(c['b']), ltype=A)]
+        return compare_fd(pp, torch, tree_prog(pp, torch, c['ops'], c['final'], c['pick']), ins, T(c['cot']), tol=5e-5)
     if c.get('kind') == 'explog':
         return confirm_explog(pp, torch, c)
     if c.get('kind') in ('poly',):
